@@ -21,6 +21,15 @@ func init() {
 }
 
 func runC12(c *Ctx) {
+	runC12Own(c)
+	// a message reaches the wire once and unchanged only if the bytes of a segment already handed to the muxer are not
+	// overwritten by the next batch: the payload-buffer freshness rule of C10 is part of this property too
+	c.onlyRules = map[string]bool{"segment-buffer-fresh": true}
+	defer func() { c.onlyRules = nil }()
+	runC10(c)
+}
+
+func runC12Own(c *Ctx) {
 	sl := c.SSAFunc("protocol", "Protocol.sendLoop")
 	key := "protocol.(*Protocol).sendLoop"
 	// transition sites: direct transitionState calls, or calls to a same-package wrapper that makes exactly one
